@@ -92,23 +92,25 @@ pub fn run(tier: Tier, args: &[String]) -> i32 {
             mc_kit::machinery_error("C09: two executions of one history differ (harness)");
         }
     }
-    let mut completed_depth = 0;
+    let mut completed: Option<(usize, usize)> = None;
     let mut total = explore::Stats::default();
     let mut runs = vec![];
-    // iterative deepening in the thorough tier so that "which bound was completed" is exact
-    let depths: Vec<usize> = match tier {
-        Tier::Quick => vec![depth],
-        Tier::Thorough => vec![depth.saturating_sub(1).max(1), depth],
+    // thorough: the full tree one level deeper than quick with no bound on outstanding requests,
+    // then the requested depth with at most `max_out` requests outstanding; which of the two was
+    // completed is reported
+    let plan: Vec<(usize, usize)> = match tier {
+        Tier::Quick => vec![(depth, max_out)],
+        Tier::Thorough => vec![(depth.saturating_sub(1).max(1), usize::MAX), (depth, max_out)],
     };
     let deadline_all = Deadline::new(limit);
-    for d in depths {
+    for (d, mo) in plan.iter().copied() {
         if deadline_all.expired() {
             break;
         }
         let cfg = Cfg {
             kinds: LANES.to_vec(),
             depth: d,
-            max_out,
+            max_out: mo,
             deadline: Deadline::new((limit - rep.elapsed()).max(1.0)),
             want_canon: false,
             fault: None,
@@ -117,17 +119,23 @@ pub fn run(tier: Tier, args: &[String]) -> i32 {
         };
         let v = V { rep: &rep };
         let st = explore::run(&cfg, &v, 24);
-        runs.push(json!({"depth": d, "nodes": st.nodes, "completed": !st.cut_by_deadline,
+        runs.push(json!({"depth": d,
+                          "max_outstanding_bound": if mo == usize::MAX { json!("none") } else { json!(mo) },
+                          "nodes": st.nodes, "completed": !st.cut_by_deadline,
+                          "max_outstanding_seen": st.max_outstanding,
                           "wall_s_so_far": rep.elapsed()}));
         if !st.cut_by_deadline {
-            completed_depth = d;
+            completed = Some((d, mo));
+            total = st;
+        } else if total.nodes == 0 {
+            total = st;
         }
-        total = st;
     }
     if total.nontrivial < 2 {
         mc_kit::machinery_error("C09: fewer than 2 non-trivial histories were explored");
     }
-    let exhaustive = completed_depth == depth;
+    let exhaustive = completed == plan.last().copied();
+    let (completed_depth, completed_max_out) = completed.unwrap_or((0, 0));
     let samples = total.samples.take().map(|s| s.into_value()).unwrap_or(json!([]));
     let coverage = json!({
         "states": total.nodes,
@@ -159,7 +167,8 @@ pub fn run(tier: Tier, args: &[String]) -> i32 {
         },
         "history_alphabet": "menu event (10) | answer(k) for the k-th outstanding request in issue order, k over ALL outstanding requests (a stream item if that request is a stream); answer values are a function of (request, step number): unique per step, rotating through ok/error shapes",
         "lanes": LANES.iter().map(|l| l.name()).collect::<Vec<_>>(),
-        "max_outstanding_bound": if max_out == usize::MAX { json!("none") } else { json!(max_out) },
+        "max_outstanding_bound": if completed_max_out == usize::MAX { json!("none") } else { json!(completed_max_out) },
+        "counts_refer_to": format!("the last completed run: depth {completed_depth}"),
         "max_outstanding_requests_seen": total.max_outstanding,
         "ids_reused_count": total.ids_reused,
         "distinct_outcomes": total.outcomes.len(),
